@@ -16,7 +16,8 @@ Definition as_op (t : tree) : option op :=
           else if o =? 2 then Some (Expire k ns) else if o =? 3 then Some ExpireAll
           else if o =? 4 then Some (Refresh k ns) else if o =? 5 then Some Commit
           else if o =? 6 then Some Rollback else if o =? 7 then Some PopEx
-          else if o =? 8 then Some (Ext k a v) else None
+          else if o =? 8 then Some (Ext k a v) else if o =? 9 then Some (PopExCols ns)
+          else if o =? 10 then Some (Expunge k) else if o =? 11 then Some (Add k) else None
       | None => None
       end
   | _ => None
@@ -29,12 +30,12 @@ Fixpoint lookupl (k : Z) (l : list (Z * list Z)) : list Z :=
 Definition rows_of (l : list (Z * list Z)) : rowsf := fun k a => nth a (lookupl k l) 0.
 
 Definition of_res (r : res) : tree :=
-  match r with RUnit => L [I 0] | RVal v => L [I 1; of_optZ v] | RBusy => L [I 2] end.
+  match r with RUnit => L [I 0] | RVal v => L [I 1; of_optZ v] | RBusy => L [I 2] | RErr => L [I 3] end.
 Definition of_obj (attrs : list nat) (o : obj) : tree :=
   L [L (map (fun a => of_optZ (oval o a)) attrs);
      L (map (fun a => of_bool (negb (isnone (orig o a)))) attrs);
      L (map (fun a => of_bool (oexp o a)) attrs);
-     of_bool (omod o)].
+     of_bool (omod o); of_bool (oatt o)].
 
 Section R.
 Variables (eoc : bool) (pks : list Z) (attrs : list nat).
